@@ -2,12 +2,17 @@
 use crate::Ctx;
 
 pub mod c01;
+pub mod c11;
+pub mod hist;
+pub mod pool;
 pub mod util;
 
 pub fn run(ctx: &Ctx) {
     match ctx.scenario.as_str() {
         "selftest" => util::selftest(ctx),
         "c01" => c01::run(ctx),
+        "c11" => c11::run(ctx),
+        "hist" => hist::run(ctx),
         other => {
             eprintln!("HARNESS-ERROR unknown scenario {other}");
             std::process::exit(2);
